@@ -27,13 +27,16 @@ def mdsPre (δ : Fin n → Fin n → K) : Mat n n K :=
 def kpcaPre (κ : Fin n → Fin n → K) : Mat n n K :=
   centerMatrix (kernelMatrix κ)
 
-/-- Isomap after the geodesic matrix `G` (any square matrix, used as it is):
-    `G.array().square(); centerMatrix; *= -0.5` -/
+/-- Isomap after the geodesic matrix `G` (any square matrix):
+    `S = G.array().square(); S = (S + Sᵀ)/2.0; centerMatrix(S); S *= -0.5`  (the averaging is fix F-ISOMAP-ASYM, 2c74a55) -/
 def isomapPreOfGeodesics (G : Mat n n K) : Mat n n K :=
-  scale negHalf (centerMatrix (fun i j => G i j * G i j))
+  scale negHalf (centerMatrix (fun i j => (G i j * G i j + G j i * G j i) / ((2 : Nat) : K)))
 
-/-- `col(j) *= s j`  (the code passes `s j = sqrt (λ j)`) -/
+/-- `col(j) *= s j`  (the code passes `s j = sqrt (max (λ j) 0)`; `sqrt` enters as the contract `0 ≤ s j ∧ s j ² = clamp0 (λ j)`) -/
 def post (V : Mat n d K) (s : Vec d K) : Mat n d K := fun i j => V i j * s j
+
+/-- `std::max<ScalarType>(x, 0.0)` (fix F-SQRT-NEG, c99fb7c) -/
+def clamp0 [LT K] [DecidableLT K] (x : K) : K := if x < 0 then 0 else x
 
 /-- Gram matrix of row vectors `Y Yᵀ` and of columns `Yᵀ Y` -/
 def gramRows (Y : Mat n d K) : Mat n n K := fun i j => sumFin d fun a => Y i a * Y j a
